@@ -30,7 +30,7 @@ import (
 
 // the functions translated, by file; "Recv.name" for methods
 var targets = []string{
-	"verifyIssuer", "verifyTimeConstraint", "verifyExpiration", "verifyIssuedAt", "verifyNotBefore", "verifyAudience", "JWT.Verify",
+	"verifyIssuer", "numericDateSeconds", "verifyTimeConstraint", "verifyExpiration", "verifyIssuedAt", "verifyNotBefore", "verifyAudience", "JWT.Verify",
 	"TraefikOidc.determineScheme", "TraefikOidc.determineHost", "TraefikOidc.determineExcludedURL", "TraefikOidc.isAllowedDomain",
 	"isLocalRedirectTarget", "buildFullURL", "TraefikOidc.extractGroupsAndRoles", "splitIntoChunks",
 	"TraefikOidc.VerifyJWTSignatureAndClaims", "TraefikOidc.isUserAuthenticated",
@@ -103,7 +103,7 @@ var sessGetters = map[string]string{"GetAuthenticated": "bool", "GetAccessToken"
 
 // package-level variables / constants translated (name -> Lean type)
 var globals = map[string]string{"ClockSkewToleranceFuture": "dur", "ClockSkewTolerancePast": "dur", "ClockSkewTolerance": "dur", "defaultBlacklistDuration": "dur",
-	"maxCookieSize": "int", "accessTokenCookie": "str", "refreshTokenCookie": "str", "absoluteSessionTimeout": "dur"}
+	"maxCookieSize": "int", "accessTokenCookie": "str", "refreshTokenCookie": "str", "absoluteSessionTimeout": "dur", "maxNumericDate": "int"}
 
 type fn struct {
 	key        string
@@ -575,9 +575,34 @@ func (c *ctx) binary(x *ast.BinaryExpr) (string, string) {
 		}
 		fail(x, "comparison with nil of a %s", t)
 	}
+	if x.Op == token.SHL { // a constant shift: evaluated here
+		if l, ok := x.X.(*ast.BasicLit); ok && l.Kind == token.INT {
+			if r, ok := x.Y.(*ast.BasicLit); ok && r.Kind == token.INT {
+				lv, _ := strconv.ParseInt(l.Value, 0, 64)
+				rv, _ := strconv.ParseInt(r.Value, 0, 64)
+				if lv > 0 && rv >= 0 && rv < 63 && lv<<uint(rv)>>uint(rv) == lv {
+					return fmt.Sprintf("(%d : Int)", lv<<uint(rv)), "int"
+				}
+			}
+		}
+		fail(x, "shift that is not a small constant")
+	}
 	a, ta := c.expr(x.X)
 	npre := len(c.pre)
 	b, tb := c.expr(x.Y)
+	if ta == "f64" && tb == "int" && (x.Op == token.GEQ || x.Op == token.LEQ) {
+		// a float64 against an integer constant: `v >= c` for c >= 0 and `v <= -c` for c >= 0 are decided by the whole-number part of v
+		// (truncation toward zero), which is all the model keeps of a float64
+		if id, ok := x.Y.(*ast.Ident); ok && x.Op == token.GEQ && globals[id.Name] == "int" {
+			return "(Go.f64GeNonneg " + a + " " + b + ")", "bool"
+		}
+		if u, ok := x.Y.(*ast.UnaryExpr); ok && u.Op == token.SUB && x.Op == token.LEQ {
+			if id, ok := u.X.(*ast.Ident); ok && globals[id.Name] == "int" {
+				return "(Go.f64LeNonpos " + a + " " + b + ")", "bool"
+			}
+		}
+		fail(x, "comparison of a float64 with something that is not ±a named non-negative constant")
+	}
 	if (x.Op == token.LAND || x.Op == token.LOR) && len(c.pre) != npre {
 		fail(x, "call on the shared state in the right operand of a short-circuit operator")
 	}
